@@ -178,6 +178,75 @@ Ltac each_tperm k :=
     | k uconstr:(tperm4_4312)
     | k uconstr:(tperm4_4321) ].
 
+(** * Loops compared by what the rest of the function OBSERVES of them, under an invariant
+    [while_fuel_map] wants the two bodies to leave the same state at every exit.  That is more than a bridge needs:
+    a statement moved across an independent [if] ([i += consumed] before or after the block that can raise) changes
+    the state in which the loop is left by a [raise] -- a state of which the function then reads only [self]; and a
+    test may read a local that was initialised, before the loop, from an attribute that no iteration changes
+    ([maxsize = self._maxsize] hoisted) -- equal to the attribute only under the invariant "the loop leaves that
+    field alone".  So: [P1], [P2] are the CONTEXTS of the two loops (what the function does with their results),
+    the iterations are compared through [obs_ctl]: same next state (up to [f]), or exits on which the contexts
+    agree -- whatever the kind of exit and the final state; all of it for the states that satisfy [I], which the
+    first body preserves. *)
+Inductive octl (T A : Type) := ONext (t : T) | OStop (a : A).
+Arguments ONext {T A}. Arguments OStop {T A}.
+
+Definition obs_ctl {S T R A} (f : S -> T) (P : lres S R -> A) (c : ctl S R) : octl T A :=
+  match c with
+  | Next s => ONext (f s)
+  | Break s => OStop (P (Done s))
+  | Return r s => OStop (P (Returned r s))
+  | Raise e s => OStop (P (Raised e s))
+  end.
+
+(** the body [g] preserves [I] from one iteration to the next *)
+Definition pres {S R} (g : S -> ctl S R) (I : S -> Prop) : Prop :=
+  forall s, I s -> match g s with Next s' => I s' | _ => True end.
+Lemma pres_true {S R} (g : S -> ctl S R) : pres g (fun _ => True).
+Proof. intros s _. destruct (g s); exact Logic.I. Qed.
+Lemma pres_conj {S R} (g : S -> ctl S R) (I J : S -> Prop) : pres g I -> pres g J -> pres g (fun s => I s /\ J s).
+Proof. intros HI HJ s [A B]. specialize (HI s A). specialize (HJ s B). destruct (g s); auto. Qed.
+
+Lemma while_fuel_obs {S T R1 R2 A} (f : S -> T) (I : S -> Prop)
+      (g : S -> ctl S R1) (h : T -> ctl T R2) (P1 : lres S R1 -> A) (P2 : lres T R2 -> A) :
+  (forall s, I s -> P1 (Exhausted s) = P2 (Exhausted (f s))) ->
+  (forall s, I s -> obs_ctl f P1 (g s) = obs_ctl (fun t => t) P2 (h (f s))) ->
+  pres g I ->
+  forall n s, I s -> P1 (while_fuel n g s) = P2 (while_fuel n h (f s)).
+Proof.
+  intros HX HB HP n; induction n as [|k IH]; intros s Hs; cbn [while_fuel]; [apply HX; exact Hs|].
+  specialize (HB s Hs). specialize (HP s Hs).
+  destruct (g s) as [s1|s1|r1 s1|e1 s1], (h (f s)) as [t2|t2|r2 t2|e2 t2]; cbn [obs_ctl] in HB;
+    try discriminate HB; try (injection HB as HB; exact HB).
+  injection HB as <-. apply IH. exact HP.
+Qed.
+Lemma while_fuel_obs_at {S T R1 R2 A} (f : S -> T) (I : S -> Prop)
+      (g : S -> ctl S R1) (h : T -> ctl T R2) (P1 : lres S R1 -> A) (P2 : lres T R2 -> A) n s t :
+  (forall s, I s -> P1 (Exhausted s) = P2 (Exhausted (f s))) ->
+  (forall s, I s -> obs_ctl f P1 (g s) = obs_ctl (fun t => t) P2 (h (f s))) ->
+  pres g I -> t = f s -> I s -> P1 (while_fuel n g s) = P2 (while_fuel n h t).
+Proof. intros HX HB HP -> Hs. apply while_fuel_obs with (I := I); assumption. Qed.
+
+(** the same for [for x in xs]: the end of the list is one more exit *)
+Definition pres_e {A S R} (g : A -> S -> ctl S R) (I : S -> Prop) : Prop := forall a, pres (g a) I.
+Lemma pres_e_true {A S R} (g : A -> S -> ctl S R) : pres_e g (fun _ => True).
+Proof. intros a. apply pres_true. Qed.
+Lemma pres_e_conj {A S R} (g : A -> S -> ctl S R) (I J : S -> Prop) :
+  pres_e g I -> pres_e g J -> pres_e g (fun s => I s /\ J s).
+Proof. intros HI HJ a. apply pres_conj; [apply HI|apply HJ]. Qed.
+Lemma for_each_obs_at {A S T R1 R2 B} (f : S -> T) (I : S -> Prop)
+      (g : A -> S -> ctl S R1) (h : A -> T -> ctl T R2) (P1 : lres S R1 -> B) (P2 : lres T R2 -> B) xs s t :
+  (forall s, I s -> P1 (Done s) = P2 (Done (f s))) ->
+  (forall a s, I s -> obs_ctl f P1 (g a s) = obs_ctl (fun t => t) P2 (h a (f s))) ->
+  pres_e g I -> t = f s -> I s -> P1 (for_each xs g s) = P2 (for_each xs h t).
+Proof.
+  intros HD HB HP -> Hs. revert s Hs. induction xs as [|x r IH]; intros s Hs; cbn [for_each]; [apply HD; exact Hs|].
+  specialize (HB x s Hs). specialize (HP x s Hs).
+  destruct (g x s) as [s1|s1|r1 s1|e1 s1], (h x (f s)) as [t2|t2|r2 t2|e2 t2]; cbn [obs_ctl] in HB;
+    try discriminate HB; try (injection HB as HB; exact HB).
+  injection HB as <-. apply IH. exact HP.
+Qed.
+
 (** * Bit operations as arithmetic, for [lia] (with the euclidean post-hook above) *)
 Lemma bz_range_ b : 0 <= bz b < 256.
 Proof. unfold bz. pose proof (Byte.to_N_bounded b). lia. Qed.
@@ -344,10 +413,11 @@ Ltac tidy :=
     loops with the same fuel and initial state are compared body against body.  [callees] rewrites with the
     bridges of the definitions that the two sides call (they need not be convertible). *)
 Ltac lexpose :=
-  cbv beta iota zeta delta [bind mbind sbind catch fst snd map_ctl map_lres]; unfold_tperms.
+  cbv beta iota zeta delta [bind mbind sbind catch fst snd map_ctl map_lres obs_ctl truthy]; unfold_tperms.
 Ltac lfinish :=
   units; tidy;
-  solve [ reflexivity | congruence | (exfalso; len_facts; lia) | (exfalso; congruence) | zcong ].
+  solve [ reflexivity | congruence | (exfalso; len_facts; lia) | (exfalso; congruence) | zcong
+        | (exfalso; unfold truthy in *; len_facts; lia) ].
 
 (** [for x in enumerate(xs, a)]: the index can be shifted into the body *)
 Lemma enumerate_from_shift {A} (k : Z) (xs : list A) : forall a,
@@ -398,6 +468,142 @@ Ltac loop_sync tac :=
           rewrite E; clear E;
           rewrite (for_each_map f g h) by (intros; destruct_pairs; unfold_tperms; tac)) end
   end.
+(** [loop_obs tac]: the two loops of the goal (same fuel, initial states equal up to a permutation) are identified
+    by [while_fuel_obs].  The contexts are read off the goal ([pattern]); the invariant is the conjunction of the
+    equations [p (component of the state) = p x] -- for the terms [p x] of the two bodies in which [x] is a
+    variable of the context that is also a component of the initial state, [p] a constant (a field) -- that the
+    first body preserves (each candidate is tried, those that are not preserved are dropped). *)
+Ltac tuple_has s0 x :=
+  lazymatch s0 with
+  | (?a, ?b) => first [ constr_eq b x | tuple_has a x ]
+  | _ => constr_eq s0 x
+  end.
+Ltac sel_of T s0 x :=
+  lazymatch s0 with
+  | (?a, ?b) =>
+      lazymatch b with
+      | x => constr:(fun s : T => snd s)
+      | _ => lazymatch eval cbv beta in T with
+             | (?Ta * _)%type => let f := sel_of Ta a x in constr:(fun s : T => f (fst s))
+             end
+      end
+  | _ => constr:(fun s : T => s)
+  end.
+(** the case analysis of a body, for a goal [match body with Next s' => I s' | _ => True end] *)
+Ltac pres_leaf :=
+  cbv beta iota delta [fst snd]; first [ exact Logic.I | cbn; solve [ assumption | congruence | lia ] ].
+Ltac pres_tac callees :=
+  intros; destruct_pairs;
+  repeat match goal with H : _ |- _ => progress cbv beta iota delta [fst snd] in H end;
+  repeat (lexpose; callees; first [ pres_leaf | break_match ]).
+(** [mk]: the preservation statement for a candidate ([pres g] / [pres_e g]); [cj]: the conjunction lemma *)
+Ltac grow_inv_gen T s0 bodies callees mk cj :=
+  repeat match goal with
+  | HP : ?Q |- _ =>
+      let I := lazymatch Q with pres _ ?J => J | pres_e _ ?J => J end in
+      match bodies with
+      | context [?p ?x] =>
+          is_var x; let hp := head_of p in is_const hp; tuple_has s0 x;
+          let sel := sel_of T s0 x in
+          let c := eval cbv beta in (fun s : T => p (sel s) = p x) in
+          lazymatch I with context [c] => fail | _ => idtac end;
+          let Hc := fresh in
+          let stmt := mk c in
+          assert (Hc : stmt) by (unfold pres_e, pres; pres_tac callees);
+          let HP' := fresh in
+          let pf := cj c I Hc HP in
+          pose proof pf as HP'; clear HP Hc
+      end
+  end.
+Ltac split_inv :=
+  repeat match goal with
+  | H : _ /\ _ |- _ => destruct H
+  | H : True |- _ => clear H
+  end.
+Ltac obs_side tac :=
+  intros; destruct_pairs;
+  repeat match goal with H : _ |- _ => progress cbv beta iota delta [fst snd] in H end;
+  split_inv; unfold_tperms; cbv beta iota; tac.
+Ltac loop_obs_at callees tac L R n g s h t f :=
+  let E := fresh "E" in
+  assert (E : t = f s) by (unfold_tperms; cbv beta; zcong);
+  let T := type of s in
+  let P1 := lazymatch (eval pattern (while_fuel n g s) in L) with ?P _ => P end in
+  let P2 := lazymatch (eval pattern (while_fuel n h t) in R) with ?P _ => P end in
+  pose proof (pres_true g);
+  grow_inv_gen T s (g, h) callees ltac:(fun c => constr:(pres g c)) ltac:(fun c I Hc HP => constr:(pres_conj g c I Hc HP));
+  lazymatch goal with
+  | HP : pres g ?I |- _ =>
+      change (P1 (while_fuel n g s) = P2 (while_fuel n h t));
+      apply (while_fuel_obs_at f I g h P1 P2 n s t);
+      [ clear HP E; obs_side tac | clear HP E; obs_side tac | exact HP | exact E
+      | cbv beta iota delta [fst snd]; repeat split; reflexivity ]
+  end.
+Ltac loop_obs_at_e callees tac L R xs g s h t f :=
+  let E := fresh "E" in
+  assert (E : t = f s) by (unfold_tperms; cbv beta; zcong);
+  let T := type of s in
+  let P1 := lazymatch (eval pattern (for_each xs g s) in L) with ?P _ => P end in
+  let P2 := lazymatch (eval pattern (for_each xs h t) in R) with ?P _ => P end in
+  pose proof (pres_e_true g);
+  grow_inv_gen T s (g, h) callees ltac:(fun c => constr:(pres_e g c)) ltac:(fun c I Hc HP => constr:(pres_e_conj g c I Hc HP));
+  lazymatch goal with
+  | HP : pres_e g ?I |- _ =>
+      change (P1 (for_each xs g s) = P2 (for_each xs h t));
+      apply (for_each_obs_at f I g h P1 P2 xs s t);
+      [ clear HP E; obs_side tac | clear HP E; obs_side tac | exact HP | exact E
+      | cbv beta iota delta [fst snd]; repeat split; reflexivity ]
+  end.
+(** the views of a tuple type [T] as a tuple type [U]: every component of [U] is some component of [T] (a variable
+    that only one of the two loops has -- the octet read by the test of [while (b := data[i]) >= 128:], that the
+    code after the loop uses -- is dropped; [while_fuel_obs] does not ask [f] to be a bijection).  The views that do
+    not fit the initial states (types, values) are refused at once by [loop_obs_at]. *)
+Ltac each_comp T kont :=
+  lazymatch T with
+  | (?A * ?B)%type =>
+      first [ kont constr:(fun s : T => snd s)
+            | each_comp A ltac:(fun g => let c := eval cbv beta in (fun s : T => g (fst s)) in kont c) ]
+  | _ => kont constr:(fun s : T => s)
+  end.
+Ltac each_view T U kont :=
+  lazymatch U with
+  | (?A * ?B)%type =>
+      each_view T A ltac:(fun fa =>
+        each_comp T ltac:(fun gb =>
+          let c := eval cbv beta in (fun s : T => (fa s, gb s)) in kont c))
+  | _ => each_comp T kont
+  end.
+Ltac tuple_arity T := lazymatch T with (?A * _)%type => let n := tuple_arity A in constr:(Datatypes.S n) | _ => constr:(1%nat) end.
+Ltac loop_obs_views s t k :=
+  let T := type of s in let U := type of t in
+  let T := eval cbv beta in T in let U := eval cbv beta in U in
+  let a := tuple_arity T in let b := tuple_arity U in
+  lazymatch eval vm_compute in (Nat.ltb b a) with
+  | true => each_view T U k
+  end.
+Ltac loop_obs_dir callees tac :=
+  lazymatch goal with
+  | |- ?L = ?R =>
+      lazymatch L with
+      | context [while_fuel ?n ?g ?s] =>
+          lazymatch R with context [while_fuel n ?h ?t] =>
+            differ g h;     (* the same loop on both sides is left to [loop_destruct] *)
+            first [ loop_obs_at callees tac L R n g s h t uconstr:(fun x => x)
+                  | each_tperm ltac:(fun f => loop_obs_at callees tac L R n g s h t f)
+                  | loop_obs_views s t ltac:(fun f => loop_obs_at callees tac L R n g s h t f) ]
+          end
+      | context [for_each ?xs ?g ?s] =>
+          lazymatch R with context [for_each xs ?h ?t] =>
+            differ g h;
+            first [ loop_obs_at_e callees tac L R xs g s h t uconstr:(fun x => x)
+                  | each_tperm ltac:(fun f => loop_obs_at_e callees tac L R xs g s h t f)
+                  | loop_obs_views s t ltac:(fun f => loop_obs_at_e callees tac L R xs g s h t f) ]
+          end
+      end
+  end.
+Ltac loop_obs callees tac :=
+  first [ loop_obs_dir callees tac | (symmetry; loop_obs_dir callees tac) ].
+
 (** a loop that has no counterpart left to be identified with: its result is analysed *)
 Ltac loop_destruct :=
   match goal with
@@ -461,7 +667,7 @@ Ltac range_split :=
     hold, or a wrong guess of [loop_sync], fails on its first stuck case instead of exploring them all).
     [lcrush_show] is the same but leaves the stuck goals, for inspection. *)
 Ltac lstep callees self :=
-  first [ loop_sync ltac:(self) | break_match | loop_destruct | range_split ].
+  first [ loop_sync ltac:(self) | break_match | loop_obs callees ltac:(self) | loop_destruct | range_split ].
 Ltac lcrush callees :=
   lexpose; callees; first [ lfinish | (lstep callees ltac:(lcrush callees); lcrush callees) ].
 Ltac lcrush_show callees :=
